@@ -35,9 +35,21 @@ Qed.
 
 (* ---- what a step does to the global state ---- *)
 
+Ltac open_objs s :=
+  cbn [step];
+  repeat match goal with
+  | |- context [nth_error (g_objs s) ?k] => destruct (nth_error (g_objs s) k) as [?ob|]
+  | |- context [ob_fitted ?o] => destruct (ob_fitted o)
+  end;
+  unfold revalidate, new_obj, mark_fitted; cbn [ob_seed];
+  repeat match goal with
+  | |- context [ob_seed ?o] => destruct (ob_seed o)
+  end; cbn.
+
+
 Lemma step_threads : forall s o, g_threads (fst (step s o)) = g_threads s.
 Proof.
-  intros s o. destruct o as [d c|d c|d c [z|]|d|k|k|n|[|]]; cbn; reflexivity.
+  intros s o. destruct o as [d c|d c|d c [z|]|d|k|k|n|[|]|c [z|]|k d|k|k]; try (cbn; reflexivity); open_objs s; reflexivity.
 Qed.
 
 Lemma run_threads : forall h s, g_threads (fst (run s h)) = g_threads s.
@@ -50,7 +62,7 @@ Qed.
 
 Lemma step_ct_default : forall s o, g_ct_default (fst (step s o)) = g_ct_default s.
 Proof.
-  intros s o. destruct o as [d c|d c|d c [z|]|d|k|k|n|[|]]; cbn; reflexivity.
+  intros s o. destruct o as [d c|d c|d c [z|]|d|k|k|n|[|]|c [z|]|k d|k|k]; try (cbn; reflexivity); open_objs s; reflexivity.
 Qed.
 
 (* the shared default list of CalTRACKHourlyModelResults is never written, whatever the library is used for *)
@@ -64,7 +76,7 @@ Qed.
 
 Lemma step_models : forall s o, g_models (fst (step s o)) = g_models s ++ [snd (step s o)].
 Proof.
-  intros s o. destruct o as [d c|d c|d c [z|]|d|k|k|n|[|]]; cbn; reflexivity.
+  intros s o. destruct o as [d c|d c|d c [z|]|d|k|k|n|[|]|c [z|]|k d|k|k]; try (cbn; reflexivity); open_objs s; reflexivity.
 Qed.
 
 Lemma run_models : forall h s, g_models (fst (run s h)) = g_models s ++ snd (run s h).
@@ -87,19 +99,18 @@ Qed.
 (* a seeded fit, as coded, does not move numpy's global generator *)
 Lemma clean_keeps_rng : forall s o, rng_clean o = true -> g_rng (fst (step s o)) = g_rng s.
 Proof.
-  intros s o H. destruct o as [d c|d c|d c [z|]|d|k|k|n|[|]]; cbn in *; try discriminate; try reflexivity.
-  destruct (h_silhouette c); [discriminate|reflexivity].
+  intros s o H. destruct o as [d c|d c|d c [z|]|d|k|k|n|[|]|c [z|]|k d|k|k]; cbn in *; try discriminate; try reflexivity.
 Qed.
 
 (* ---- the result of a seeded fit is a function of the operation (and, for CalTRACK, of the pool size) ---- *)
 
 Lemma step_seeded_pure : forall s o, seeded o = true -> snd (step s o) = pure_out (g_threads s) o.
 Proof.
-  intros s o H. destruct o as [d c|d c|d c [z|]|d|k|k|n|[|]]; cbn in *; try discriminate; reflexivity.
+  intros s o H. destruct o as [d c|d c|d c [z|]|d|k|k|n|[|]|c [z|]|k d|k|k]; cbn in *; try discriminate; reflexivity.
 Qed.
 
 Lemma pure_out_threads : forall o t1 t2, thread_sensitive o = false -> pure_out t1 o = pure_out t2 o.
-Proof. intros o t1 t2 H. destruct o as [d c|d c|d c [z|]|d|k|k|n|[|]]; cbn in *; try discriminate; reflexivity. Qed.
+Proof. intros o t1 t2 H. destruct o as [d c|d c|d c [z|]|d|k|k|n|[|]|c [z|]|k d|k|k]; cbn in *; try discriminate; reflexivity. Qed.
 
 Lemma history_independent_same_pool : forall o s1 s2 h1 h2, seeded o = true -> g_threads s1 = g_threads s2 ->
   out (run s1 (h1 ++ [o])) = out (run s2 (h2 ++ [o])).
@@ -153,7 +164,7 @@ Proof.
   cbn [step]. unfold with_result. cbn [snd]. rewrite Hm.
   rewrite nth_error_app2 by (rewrite run_length; lia).
   rewrite run_length, Nat.sub_diag. cbn [nth_error].
-  destruct o as [d c|d c|d c [z|]|d|k|k|n|[|]]; cbn in *; try discriminate; reflexivity.
+  destruct o as [d c|d c|d c [z|]|d|k|k|n|[|]|c [z|]|k d|k|k]; cbn in *; try discriminate; reflexivity.
 Qed.
 
 (* ---- the seed reaches every consumer ---- *)
@@ -219,3 +230,81 @@ Qed.
 (* ---- interpretation by any fit function ---- *)
 Lemma interp_eq : forall (M : Type) fitf predf (none : M) r1 r2, r1 = r2 -> interp M fitf predf none r1 = interp M fitf predf none r2.
 Proof. intros. subst. reflexivity. Qed.
+
+(* ---- settings objects: a fit reads its own object, and nothing else writes to it ---- *)
+
+Lemma set_nth_other : forall (A : Type) (l : list A) j k (x : A), j <> k -> nth_error (set_nth j x l) k = nth_error l k.
+Proof.
+  induction l as [|a l IH]; intros j k x H; [destruct j; reflexivity|].
+  destruct j, k; cbn; try reflexivity; try congruence. apply IH. congruence.
+Qed.
+
+Lemma set_nth_length : forall (A : Type) (l : list A) j (x : A), length (set_nth j x l) = length l.
+Proof. induction l as [|a l IH]; intros j x; [destruct j; reflexivity|]. destruct j; cbn; [reflexivity|]. rewrite IH. reflexivity. Qed.
+
+Lemma nth_error_app_some : forall (A : Type) (l m : list A) k (x : A), nth_error l k = Some x -> nth_error (l ++ m) k = Some x.
+Proof.
+  intros A l m k x H. rewrite nth_error_app1; [exact H|]. apply nth_error_Some. congruence.
+Qed.
+
+(* an operation that does not use object k leaves it exactly as it was (constructing, fitting, serialising, loading
+   OTHER models, whatever their seeds) *)
+Lemma step_keeps_object : forall s o k ob, touches o k = false -> nth_error (g_objs s) k = Some ob ->
+  nth_error (g_objs (fst (step s o))) k = Some ob.
+Proof.
+  intros s o k ob Ht Hk.
+  destruct o as [d c|d c|d c [z|]|d|j|j|n|[|]|c [z|]|j d|j|j]; try (cbn; exact Hk).
+  - cbn. apply nth_error_app_some. exact Hk.
+  - cbn. apply nth_error_app_some. exact Hk.
+  - cbn [touches] in Ht. apply Nat.eqb_neq in Ht. cbn [step].
+    destruct (nth_error (g_objs s) j) as [o1|]; [|cbn; exact Hk].
+    unfold revalidate, mark_fitted. cbn [ob_seed]. destruct (ob_seed o1); cbn; rewrite set_nth_other by exact Ht; exact Hk.
+  - cbn [touches] in Ht. apply Nat.eqb_neq in Ht. cbn [step].
+    destruct (nth_error (g_objs s) j) as [o1|]; [|cbn; exact Hk].
+    destruct (ob_fitted o1); [|cbn; exact Hk].
+    unfold revalidate. destruct (ob_seed o1); cbn; rewrite set_nth_other by exact Ht; exact Hk.
+  - cbn [touches] in Ht. apply Nat.eqb_neq in Ht. cbn [step].
+    destruct (nth_error (g_objs s) j) as [o1|]; [|cbn; exact Hk].
+    destruct (ob_fitted o1); [|cbn; exact Hk].
+    unfold revalidate, new_obj. destruct (ob_seed o1); cbn; apply nth_error_app_some; rewrite set_nth_other by exact Ht; exact Hk.
+Qed.
+
+Lemma run_keeps_object : forall h s k ob, forallb (fun o => negb (touches o k)) h = true ->
+  nth_error (g_objs s) k = Some ob -> nth_error (g_objs (fst (run s h))) k = Some ob.
+Proof.
+  induction h as [|o h IH]; intros s k ob H Hk; [exact Hk|].
+  cbn [forallb] in H. apply andb_prop in H. destruct H as [Ho Hh]. apply negb_true_iff in Ho.
+  cbn [run]. destruct (step s o) as [s1 r] eqn:E.
+  assert (H1 : nth_error (g_objs s1) k = Some ob).
+  { change s1 with (fst (s1, r)). rewrite <- E. apply step_keeps_object; assumption. }
+  specialize (IH s1 k ob Hh H1). destruct (run s1 h) as [s2 rs]. exact IH.
+Qed.
+
+(* the outcome of fitting object k depends on that object alone *)
+Lemma fitobj_own_object : forall s1 s2 k d, nth_error (g_objs s1) k = nth_error (g_objs s2) k ->
+  snd (step s1 (FitObj k d)) = snd (step s2 (FitObj k d)).
+Proof.
+  intros s1 s2 k d H. cbn [step]. rewrite H. destruct (nth_error (g_objs s2) k) as [o|]; [|reflexivity].
+  unfold revalidate, mark_fitted. cbn [ob_seed]. destruct (ob_seed o); reflexivity.
+Qed.
+
+(* construct a seeded model, do anything at all with OTHER models (construct, fit, to_json, from_json, seeded or not),
+   fit it afterwards: the result is the one of constructing and fitting it straight away *)
+Lemma construct_interleave_fit : forall s h c z d,
+  forallb (fun o => negb (touches o (length (g_objs s)))) h = true ->
+  out (run s (NewHourly c (Some z) :: h ++ [FitObj (length (g_objs s)) d])) =
+  RFit Hourly d (h_id c) 0 (hourly_consumers c (SdLit z)).
+Proof.
+  intros s h c z d H.
+  change (NewHourly c (Some z) :: h ++ [FitObj (length (g_objs s)) d])
+    with ((NewHourly c (Some z) :: h) ++ [FitObj (length (g_objs s)) d]).
+  rewrite out_snoc.
+  set (ob := {| ob_cfg := c; ob_seed := Some z; ob_en := SdLit z; ob_eff := SdLit z; ob_fitted := false |}).
+  assert (Hk : nth_error (g_objs (fst (run s (NewHourly c (Some z) :: h)))) (length (g_objs s)) = Some ob).
+  { cbn [run]. destruct (step s (NewHourly c (Some z))) as [s1 r] eqn:E.
+    assert (H1 : nth_error (g_objs s1) (length (g_objs s)) = Some ob).
+    { change s1 with (fst (s1, r)). rewrite <- E. cbn. rewrite nth_error_app2 by apply Nat.le_refl.
+      rewrite Nat.sub_diag. reflexivity. }
+    pose proof (run_keeps_object h s1 _ ob H H1) as H2. destruct (run s1 h) as [s2 rs]. exact H2. }
+  cbn [step]. rewrite Hk. reflexivity.
+Qed.
